@@ -734,4 +734,260 @@ theorem opAll_agree (m : Nat) (a : Val) (c : Ctr) (_hw : a.wf = true) (hp : Prop
     · exact OpAgree.ok rfl nil_wf
     · exact OpAgree.ok rfl one_wf
 
+/-! ### `substr` -/
+
+/-- `new_substr` with validated bounds: the sub-string, or a limit -/
+theorem newSubstr_cases (c : Ctr) {b : Bytes} {i : Bool} (hw : (Val.atom b i).wf = true) (s e : Nat)
+    (hse : s ≤ e) (he : e ≤ b.length) :
+    (∃ v c', newSubstr c (.atom b i) s e = .ok (v, c') ∧ v.erase = .atom ((b.drop s).take (e - s)) ∧ v.wf = true) ∨
+    (∃ err, newSubstr c (.atom b i) s e = .error err ∧ isLimit err = true) := by
+  unfold newSubstr Ctr.checkAtomLimit
+  by_cases hlim : (c.atoms == Gen.maxNumAtoms) = true
+  · right; exact ⟨.TooManyAtoms, by simp [hlim], rfl⟩
+  · left
+    simp only [hlim, Bool.false_eq_true, if_false]
+    cases i with
+    | false =>
+      simp only [show ¬ s > b.length by omega, show ¬ e > b.length by omega, show ¬ e < s by omega, if_false]
+      exact ⟨_, _, rfl, rfl, rfl⟩
+    | true =>
+      simp only [wfInl_len hw, show ¬ s > b.length by omega, show ¬ e > b.length by omega, show ¬ e < s by omega, if_false]
+      cases hf : fitsInSmallAtom ((b.drop s).take (e - s)) with
+      | some v => exact ⟨_, _, rfl, rfl, by simp [Val.wf, hf]⟩
+      | none => exact ⟨_, _, rfl, rfl, rfl⟩
+
+/-- the index test of both sides -/
+theorem substr_idx (size : Nat) (i1 i2 : Int) :
+    (i2 < 0 ∨ i1 < 0 ∨ i2.toNat > size ∨ i2 < i1) ↔ (i2 > (size : Int) ∨ i2 < i1 ∨ i2 < 0 ∨ i1 < 0) := by
+  omega
+
+theorem opSubstr_agree (m : Nat) (a : Val) (c : Ctr) (hw : a.wf = true) (hp : Proper a) :
+    OpAgree m (Interp.opSubstr 0 m a c) (Ref.opSubstr a.erase) := by
+  unfold Interp.opSubstr getVarargs
+  have hlen := argList_length a
+  by_cases h2 : listLen a.erase = 2
+  · -- two arguments
+    have hl2 : (argList a).length = 2 := by omega
+    match hal : argList a, hl2 with
+    | [x, y], _ =>
+      obtain ⟨r1, rfl, hr1⟩ := argList_cons hal
+      obtain ⟨r2, rfl, hr2⟩ := argList_cons hr1
+      obtain ⟨bt, it, rfl⟩ := argList_nil hr2
+      simp only [Proper, valTerminator] at hp
+      subst hp
+      simp only [Val.wf, Bool.and_eq_true] at hw
+      simp only [argList, List.length_cons, List.length_nil, show ¬ (0 + 1 + 1 > 3) by omega, if_false,
+        show ¬ (0 + 1 + 1 < 2 ∨ 0 + 1 + 1 > 3) by omega, List.getD_cons_zero, List.getD_cons_succ]
+      simp only [Ref.opSubstr, Val.erase, listLen]
+      cases x with
+      | pair l r => exact OpAgree.err rfl
+      | atom b0 i0 =>
+        simp only [atomLen, Val.erase]
+        cases y with
+        | pair l r =>
+          simp only [i32Atom, node, argsAsInt32, asIter, List.isEmpty_nil, if_true, atomsOf, Val.erase]
+          exact OpAgree.err rfl
+        | atom b1 i1 =>
+          rcases i32Atom_wf hw.2.1 "substr" with ⟨hl4, hi⟩ | ⟨hl4, msg, hi⟩
+          · rw [hi]
+            have hany : ([b1].any fun b => decide (b.length > 4)) = false := by simp; omega
+            simp only [argsAsInt32, asIter, List.isEmpty_nil, if_true, atomsOf, Val.erase, hany, Bool.false_eq_true,
+              if_false, List.map, asInt, intFromBytes_eq, show ((0 + 1 + 1 : Nat) == 3) = false by decide,
+              show ((0 + 1 + 1 : Nat) == 2) = true by decide, show ((0 + 1 + 1 : Nat) != 2) = false by decide,
+              false_and, Bool.false_eq_true, if_false, if_true]
+            by_cases hidx : ((b0.length : Int) < 0 ∨ decodeInt b1 < 0 ∨ (b0.length : Int).toNat > b0.length ∨
+                (b0.length : Int) < decodeInt b1)
+            · rw [if_pos hidx, if_pos ((substr_idx _ _ _).1 hidx)]
+              exact OpAgree.err rfl
+            · rw [if_neg hidx, if_neg (fun h => hidx ((substr_idx _ _ _).2 h))]
+              have hs : (decodeInt b1).toNat ≤ ((b0.length : Int)).toNat := by omega
+              rcases newSubstr_cases c hw.1 (decodeInt b1).toNat ((b0.length : Int)).toNat hs (by omega) with
+                ⟨v, c', hn, hv, hwf⟩ | ⟨err, hn, hl⟩
+              · rw [hn]; exact OpAgree.ok hv hwf
+              · rw [hn]; exact Or.inr (Or.inr ⟨err, rfl, hl⟩)
+          · rw [hi]
+            have hany : ([b1].any fun b => decide (b.length > 4)) = true := by simp; omega
+            simp only [argsAsInt32, asIter, List.isEmpty_nil, if_true, atomsOf, Val.erase, hany,
+              show ((0 + 1 + 1 : Nat) != 2) = false by decide, false_and, Bool.false_eq_true, if_false]
+            exact OpAgree.err rfl
+  · by_cases h3 : listLen a.erase = 3
+    · have hl3 : (argList a).length = 3 := by omega
+      match hal : argList a, hl3 with
+      | [x, y, z], _ =>
+        obtain ⟨r1, rfl, hr1⟩ := argList_cons hal
+        obtain ⟨r2, rfl, hr2⟩ := argList_cons hr1
+        obtain ⟨r3, rfl, hr3⟩ := argList_cons hr2
+        obtain ⟨bt, it, rfl⟩ := argList_nil hr3
+        simp only [Proper, valTerminator] at hp
+        subst hp
+        simp only [Val.wf, Bool.and_eq_true] at hw
+        simp only [argList, List.length_cons, List.length_nil, show ¬ (0 + 1 + 1 + 1 > 3) by omega, if_false,
+          show ¬ (0 + 1 + 1 + 1 < 2 ∨ 0 + 1 + 1 + 1 > 3) by omega, List.getD_cons_zero, List.getD_cons_succ]
+        simp only [show ¬ ((0 : Nat) + 1 + 1 + 1 < 2) by omega, or_self, if_false]
+        simp only [Ref.opSubstr, Val.erase, listLen]
+        cases x with
+        | pair l r => exact OpAgree.err rfl
+        | atom b0 i0 =>
+          simp only [atomLen, Val.erase]
+          cases y with
+          | pair l r =>
+            simp only [i32Atom, node, argsAsInt32, asIter, List.isEmpty_nil, if_true, atomsOf, Val.erase]
+            exact OpAgree.err rfl
+          | atom b1 i1 =>
+            cases z with
+            | pair l r =>
+              rcases i32Atom_wf hw.2.1 "substr" with ⟨_, hi⟩ | ⟨_, msg, hi⟩
+              · rw [hi]
+                simp only [show ((0 + 1 + 1 + 1 : Nat) == 3) = true by decide, if_true, i32Atom, node]
+                simp only [argsAsInt32, asIter, List.isEmpty_nil, if_true, atomsOf, Val.erase,
+                  show ((0 + 1 + 1 + 1 : Nat) != 3) = false by decide, and_false, Bool.false_eq_true, if_false]
+                exact OpAgree.err rfl
+              · rw [hi]
+                simp only [argsAsInt32, asIter, List.isEmpty_nil, if_true, atomsOf, Val.erase,
+                  show ((0 + 1 + 1 + 1 : Nat) != 3) = false by decide, and_false, Bool.false_eq_true, if_false]
+                exact OpAgree.err rfl
+            | atom b2 i2 =>
+              rcases i32Atom_wf hw.2.1 "substr" with ⟨hl4, hi⟩ | ⟨hl4, msg, hi⟩
+              · rw [hi]
+                rcases i32Atom_wf hw.2.2.1 "substr" with ⟨hl4', hi'⟩ | ⟨hl4', msg', hi'⟩
+                · have hany : ([b1, b2].any fun b => decide (b.length > 4)) = false := by simp; omega
+                  simp only [show ((0 + 1 + 1 + 1 : Nat) == 3) = true by decide, if_true, hi']
+                  simp only [argsAsInt32, asIter, List.isEmpty_nil, if_true, atomsOf, Val.erase, hany, Bool.false_eq_true,
+                    if_false, List.map, asInt, intFromBytes_eq,
+                    show ((0 + 1 + 1 + 1 : Nat) == 2) = false by decide, show ((0 + 1 + 1 + 1 : Nat) != 2) = true by decide,
+                    show ((0 + 1 + 1 + 1 : Nat) != 3) = false by decide, and_false, Bool.false_eq_true, if_false]
+                  by_cases hidx : (decodeInt b2 < 0 ∨ decodeInt b1 < 0 ∨ (decodeInt b2).toNat > b0.length ∨
+                      decodeInt b2 < decodeInt b1)
+                  · rw [if_pos hidx, if_pos ((substr_idx _ _ _).1 hidx)]
+                    exact OpAgree.err rfl
+                  · rw [if_neg hidx, if_neg (fun h => hidx ((substr_idx _ _ _).2 h))]
+                    rcases newSubstr_cases c hw.1 (decodeInt b1).toNat (decodeInt b2).toNat (by omega) (by omega) with
+                      ⟨v, c', hn, hv, hwf⟩ | ⟨err, hn, hl⟩
+                    · rw [hn]; exact OpAgree.ok hv hwf
+                    · rw [hn]; exact Or.inr (Or.inr ⟨err, rfl, hl⟩)
+                · have hany : ([b1, b2].any fun b => decide (b.length > 4)) = true := by simp; omega
+                  simp only [show ((0 + 1 + 1 + 1 : Nat) == 3) = true by decide, if_true, hi']
+                  simp only [argsAsInt32, asIter, List.isEmpty_nil, if_true, atomsOf, Val.erase, hany,
+                    show ((0 + 1 + 1 + 1 : Nat) != 2) = true by decide,
+                    show ((0 + 1 + 1 + 1 : Nat) != 3) = false by decide, and_false, Bool.false_eq_true, if_false]
+                  exact OpAgree.err rfl
+              · rw [hi]
+                have hany : ([b1, b2].any fun b => decide (b.length > 4)) = true := by simp; omega
+                simp only [argsAsInt32, asIter, List.isEmpty_nil, if_true, atomsOf, Val.erase, hany,
+                  show ((0 + 1 + 1 + 1 : Nat) != 2) = true by decide,
+                  show ((0 + 1 + 1 + 1 : Nat) != 3) = false by decide, and_false, Bool.false_eq_true, if_false]
+                exact OpAgree.err rfl
+    · -- wrong number of arguments
+      have href : Ref.opSubstr a.erase = .error .arg := by
+        unfold Ref.opSubstr
+        have : (listLen a.erase != 2 ∧ listLen a.erase != 3) := by simp [h2, h3]
+        simp only [this, and_self, if_true]
+      rw [href]
+      by_cases hgt : (argList a).length > 3
+      · simp only [hgt, if_true]; exact OpAgree.err rfl
+      · simp only [hgt, if_false]
+        rw [if_pos (by omega)]
+        exact OpAgree.err rfl
+
+/-! ### `ash`, `lsh` -/
+
+theorem shift_eq (i0 a1 : Int) : shiftInt i0 a1 = pyShift i0 a1 := by
+  unfold shiftInt pyShift
+  by_cases h : a1 > 0
+  · simp only [h, if_true, show a1 ≥ 0 by omega]
+  · simp only [h, if_false]
+    by_cases h0 : a1 = 0
+    · subst h0; simp [Int.fdiv_eq_ediv_of_nonneg]
+    · have hn : ¬ a1 ≥ 0 := by omega
+      simp only [hn, if_false]
+      rw [Int.shiftRight_eq_div_pow, Int.fdiv_eq_ediv_of_nonneg _ (Int.le_of_lt (Int.pow_pos (by omega)))]
+      simp
+theorem shift_range (a1 : Int) : (a1 < -65535 ∨ a1 > 65535) ↔ a1.natAbs > 65535 := by omega
+
+theorem opAsh_agree (m : Nat) (a : Val) (c : Ctr) (hw : a.wf = true) (hp : Proper a) :
+    OpAgree m (Interp.opAsh 0 m a c) (Ref.opAsh a.erase) := by
+  unfold Interp.opAsh
+  rcases getArgs2_cases a "ash" with ⟨x, y, b, i, rfl, hg⟩ | ⟨hn, msg, hg⟩
+  · rw [hg]
+    dsimp only
+    simp only [Proper, valTerminator] at hp
+    subst hp
+    simp only [Val.wf, Bool.and_eq_true] at hw
+    cases x with
+    | pair l r =>
+      simp only [Ref.opAsh, argsAsIntList, argsAsInts, asIter, Val.erase, List.isEmpty_nil, if_true, atomsOf, intAtom]
+      exact OpAgree.err rfl
+    | atom b0 i0 =>
+      rw [intAtom_wf hw.1]
+      dsimp only
+      cases y with
+      | pair l r =>
+        simp only [Ref.opAsh, argsAsIntList, argsAsInts, asIter, Val.erase, List.isEmpty_nil, if_true, atomsOf,
+          i32Atom, node]
+        exact OpAgree.err rfl
+      | atom b1 i1 =>
+        simp only [Ref.opAsh, argsAsIntList, argsAsInts, asIter, Val.erase, List.isEmpty_nil, if_true, atomsOf,
+          List.map, List.length_cons, List.length_nil, asInt, intFromBytes_eq, Nat.reduceAdd, bne_self_eq_false,
+          Bool.false_eq_true, if_false]
+        rcases i32Atom_wf hw.2.1 "ash" with ⟨hl4, hi⟩ | ⟨hl4, msg, hi⟩
+        · rw [hi]
+          dsimp only
+          rw [if_neg (by omega : ¬ b1.length > 4)]
+          by_cases hs : (decodeInt b1 < -65535 ∨ decodeInt b1 > 65535)
+          · rw [if_pos hs, if_pos ((shift_range _).1 hs)]
+            exact OpAgree.err rfl
+          · rw [if_neg hs, if_neg (fun h => hs ((shift_range _).2 h))]
+            rw [shift_eq, limbs_eq]
+            exact allocNumber_agree m _ c _
+        · rw [hi]
+          rw [if_pos hl4]
+          exact OpAgree.err rfl
+  · rw [hg]
+    simp only [Ref.opAsh]
+    rw [argsAsIntList_len hp hn]
+    exact OpAgree.err rfl
+
+theorem opLsh_agree (m : Nat) (a : Val) (c : Ctr) (hw : a.wf = true) (hp : Proper a) :
+    OpAgree m (Interp.opLsh 0 m a c) (Ref.opLsh a.erase) := by
+  unfold Interp.opLsh
+  rcases getArgs2_cases a "lsh" with ⟨x, y, b, i, rfl, hg⟩ | ⟨hn, msg, hg⟩
+  · rw [hg]
+    dsimp only
+    simp only [Proper, valTerminator] at hp
+    subst hp
+    simp only [Val.wf, Bool.and_eq_true] at hw
+    cases x with
+    | pair l r =>
+      simp only [Ref.opLsh, argsAsIntList, argsAsInts, asIter, Val.erase, List.isEmpty_nil, if_true, atomsOf, atomBytes]
+      exact OpAgree.err rfl
+    | atom b0 i0 =>
+      simp only [atomBytes]
+      cases y with
+      | pair l r =>
+        simp only [Ref.opLsh, argsAsIntList, argsAsInts, asIter, Val.erase, List.isEmpty_nil, if_true, atomsOf,
+          i32Atom, node]
+        exact OpAgree.err rfl
+      | atom b1 i1 =>
+        simp only [Ref.opLsh, argsAsIntList, argsAsInts, asIter, Val.erase, List.isEmpty_nil, if_true, atomsOf,
+          List.map, List.length_cons, List.length_nil, asInt, intFromBytes_eq, Nat.reduceAdd, bne_self_eq_false,
+          Bool.false_eq_true, if_false]
+        rcases i32Atom_wf hw.2.1 "lsh" with ⟨hl4, hi⟩ | ⟨hl4, msg, hi⟩
+        · rw [hi]
+          dsimp only
+          rw [if_neg (by omega : ¬ b1.length > 4)]
+          by_cases hs : (decodeInt b1 < -65535 ∨ decodeInt b1 > 65535)
+          · rw [if_pos hs, if_pos ((shift_range _).1 hs)]
+            exact OpAgree.err rfl
+          · rw [if_neg hs, if_neg (fun h => hs ((shift_range _).2 h))]
+            rw [shift_eq, limbs_eq]
+            exact allocNumber_agree m _ c _
+        · rw [hi]
+          rw [if_pos hl4]
+          exact OpAgree.err rfl
+  · rw [hg]
+    simp only [Ref.opLsh]
+    rw [argsAsIntList_len hp hn]
+    exact OpAgree.err rfl
+
+
 end Clvm.Ref
